@@ -1216,3 +1216,658 @@ def show_number(v):
 
 def show_point(p):
     return ", ".join("%s=%s" % (k, show_number(v)) for k, v in p.items())
+
+
+# ---------------------------------------------------------------------------------------------------------------------
+# Concrete object evaluator (C03.l): __init__ / __eq__ / __hash__ / properties of a package class, interpreted by the
+# checker over *concrete* Python values (tuples, strings, ints, bytes, None) -- nothing of the repository is executed;
+# the interpreter below walks the syntax trees itself.  Anything outside its vocabulary raises EvalRefused.
+
+
+class Opaque:
+    """a value the evaluator does not model (an interface object, a weak reference to it, ...): only its structural
+    identity is known.  Equal structure -> the same run-time object (or an equal one); an Opaque never equals a modelled
+    value of another kind (None, tuple, str, int, bytes); two different Opaques cannot be compared -> refusal."""
+
+    def __init__(self, tag):
+        self.tag = tag
+
+    def __eq__(self, other):
+        if isinstance(other, Opaque):
+            if self.tag == other.tag:
+                return True
+            raise EvalRefused("the result depends on comparing two values the evaluator does not model (%r, %r)" % (self.tag, other.tag))
+        return False
+
+    def __ne__(self, other):
+        return not self.__eq__(other)
+
+    def __hash__(self):
+        return hash(("opaque", self.tag))
+
+    def __repr__(self):
+        return "<opaque %s>" % (self.tag,)
+
+
+class Obj:
+    """an instance of a package class in the evaluator's world; == and hash() go through the interpreted methods"""
+
+    def __init__(self, interp, qn):
+        self._interp = interp
+        self.qn = qn
+        self.fields = {}
+
+    def __eq__(self, other):
+        return self._interp.eq(self, other)
+
+    def __ne__(self, other):
+        return not self._interp.eq(self, other)
+
+    def __hash__(self):
+        return self._interp.hash(self)
+
+    def __repr__(self):
+        return "<%s %s>" % (self.qn.rsplit(".", 1)[-1], ", ".join("%s=%r" % kv for kv in sorted(self.fields.items())))
+
+
+class _ClassRef:
+    def __init__(self, qn):
+        self.qn = qn
+
+    def __eq__(self, other):
+        return isinstance(other, _ClassRef) and other.qn == self.qn
+
+    def __hash__(self):
+        return hash(("class", self.qn))
+
+
+class _Bound:
+    def __init__(self, obj, fi):
+        self.obj = obj
+        self.fi = fi
+
+
+class _Return(Exception):
+    def __init__(self, value):
+        self.value = value
+
+
+_BUILTIN_TYPES = {"tuple": tuple, "list": list, "str": str, "int": int, "bytes": bytes, "bool": bool, "dict": dict, "set": set, "frozenset": frozenset}
+_PURE_BUILTINS = {"tuple": tuple, "list": list, "len": len, "all": all, "any": any, "zip": zip, "range": range, "enumerate": enumerate,
+                  "sorted": sorted, "reversed": reversed, "min": min, "max": max, "sum": sum, "bool": bool, "int": int, "str": str,
+                  "frozenset": frozenset, "set": set, "id": None}
+
+
+class ObjEval:
+    """interpreter for the identity protocol of package classes (constructor, __eq__, __hash__, properties and the
+    plain methods they call) over concrete values"""
+
+    MAX_STEPS = 200000
+    MAX_DEPTH = 12
+
+    def __init__(self, prog):
+        self.prog = prog
+        self.steps = 0
+        self.depth = 0
+        self.deps = set()
+
+    # -- class protocol -------------------------------------------------------------------------------------------
+    def member(self, qn, name):
+        """('method', FuncInfo) | ('attr', expr, ClassInfo) | None: first definition of `name` along the MRO"""
+        for q in self.prog.mro(qn):
+            ci = self.prog.classes.get(q)
+            if ci is None:
+                continue
+            if name in ci.methods:
+                return ("method", ci.methods[name], ci)
+            if name in ci.attrs:
+                return ("attr", ci.attrs[name], ci)
+        return None
+
+    def new(self, qn, args, kwargs):
+        o = Obj(self, qn)
+        m = self.member(qn, "__init__")
+        if m is None:
+            if args or kwargs:
+                raise EvalRefused("%s has no interpretable constructor" % qn)
+            return o
+        if m[0] != "method":
+            raise EvalRefused("%s.__init__ is not a plain method" % qn)
+        if self.member(qn, "__new__") is not None:
+            raise EvalRefused("%s defines __new__" % qn)
+        self.call_function(m[1], [o] + list(args), dict(kwargs))
+        return o
+
+    def eq(self, a, b):
+        """Python's `a == b` for two world instances: a.__eq__(b), reflected b.__eq__(a) on NotImplemented, identity last"""
+        if not isinstance(b, Obj):
+            r = self._eq1(a, b)
+            return False if r is NotImplemented else bool(r)
+        r = self._eq1(a, b)
+        if r is NotImplemented:
+            r = self._eq1(b, a)
+        if r is NotImplemented:
+            return a is b
+        return bool(r)
+
+    def _eq1(self, a, b):
+        m = self.member(a.qn, "__eq__")
+        if m is None:
+            return a is b
+        if m[0] != "method":
+            raise EvalRefused("%s.__eq__ is not a plain method" % a.qn)
+        self.deps.add(m[1].short)
+        return self.call_function(m[1], [a, b], {})
+
+    def hashable(self, qn):
+        """Python's rule: a class body that defines __eq__ without __hash__ sets __hash__ = None"""
+        for q in self.prog.mro(qn):
+            ci = self.prog.classes.get(q)
+            if ci is None:
+                continue
+            has_hash = "__hash__" in ci.methods or "__hash__" in ci.attrs
+            if has_hash:
+                if "__hash__" in ci.attrs:
+                    e = ci.attrs["__hash__"]
+                    if isinstance(e, ast.Constant) and e.value is None:
+                        return False
+                return True
+            if "__eq__" in ci.methods or "__eq__" in ci.attrs:
+                return False
+        return True
+
+    def hash(self, a):
+        if not self.hashable(a.qn):
+            raise EvalRefused("%s is unhashable" % a.qn)
+        m = self.member(a.qn, "__hash__")
+        if m is None:
+            return id(a)
+        if m[0] == "attr":
+            # __hash__ = Base.__hash__ / object.__hash__
+            c = chain(m[1])
+            if c == "object.__hash__":
+                return id(a)
+            if c and c.endswith(".__hash__"):
+                q = self.prog.resolve_in_module(m[2].module, c[: -len(".__hash__")])
+                mm = self.member(q, "__hash__") if q in self.prog.classes else None
+                if mm and mm[0] == "method":
+                    return self.call_function(mm[1], [a], {})
+            raise EvalRefused("%s.__hash__ = %s is outside the evaluator's vocabulary" % (a.qn, ast.unparse(m[1])))
+        self.deps.add(m[1].short)
+        return self.call_function(m[1], [a], {})
+
+    # -- functions --------------------------------------------------------------------------------------------------
+    def call_function(self, fi_or_node, args, kwargs):
+        fnode = getattr(fi_or_node, "node", fi_or_node)
+        module = getattr(fi_or_node, "module", None)
+        if isinstance(fnode, ast.AsyncFunctionDef):
+            raise EvalRefused("coroutine in the identity protocol")
+        self.depth += 1
+        try:
+            if self.depth > self.MAX_DEPTH:
+                raise EvalRefused("the evaluation nests too deeply")
+            env = self.bind(fnode, args, kwargs, module)
+            if isinstance(fnode, ast.Lambda):
+                return self.ev(fnode.body, env)
+            for d in fnode.decorator_list:
+                if chain(d) not in ("property", "staticmethod", "functools.cached_property", "cached_property"):
+                    raise EvalRefused("decorator %s" % ast.unparse(d))
+            for n in ast.walk(fnode):
+                if isinstance(n, (ast.Yield, ast.YieldFrom, ast.Await)):
+                    raise EvalRefused("generator/await in the identity protocol")
+            try:
+                self.block(fnode.body, env)
+            except _Return as r:
+                return r.value
+            return None
+        finally:
+            self.depth -= 1
+
+    def bind(self, fnode, args, kwargs, module):
+        a = fnode.args
+        env = {"__module__": module}
+        pos = list(a.posonlyargs) + list(a.args)
+        args = list(args)
+        if len(args) > len(pos) and not a.vararg:
+            raise EvalRefused("too many arguments for %s" % getattr(fnode, "name", "<lambda>"))
+        for p, v in zip(pos, args):
+            env[p.arg] = v
+        if a.vararg:
+            env[a.vararg.arg] = tuple(args[len(pos):])
+        defaults = dict(zip([p.arg for p in pos][len(pos) - len(a.defaults):], a.defaults))
+        for p, d in zip(a.kwonlyargs, a.kw_defaults):
+            if d is not None:
+                defaults[p.arg] = d
+        kwargs = dict(kwargs)
+        for p in pos[len(args):] + list(a.kwonlyargs):
+            if p.arg in kwargs:
+                if p in a.posonlyargs:
+                    raise EvalRefused("positional-only parameter passed by keyword")
+                env[p.arg] = kwargs.pop(p.arg)
+            elif p.arg in defaults:
+                env[p.arg] = self.ev(defaults[p.arg], {"__module__": module})
+            else:
+                raise EvalRefused("no argument for parameter %s of %s" % (p.arg, getattr(fnode, "name", "<lambda>")))
+        if kwargs:
+            if not a.kwarg:
+                raise EvalRefused("unexpected keyword argument %s" % sorted(kwargs)[0])
+            env[a.kwarg.arg] = kwargs
+        elif a.kwarg:
+            env[a.kwarg.arg] = {}
+        return env
+
+    def block(self, body, env):
+        for st in body:
+            self.stmt(st, env)
+
+    def _tick(self):
+        self.steps += 1
+        if self.steps > self.MAX_STEPS:
+            raise EvalRefused("the evaluation does not finish within the step budget")
+
+    def assign(self, target, value, env):
+        if isinstance(target, ast.Name):
+            env[target.id] = value
+        elif isinstance(target, (ast.Tuple, ast.List)):
+            if any(isinstance(t, ast.Starred) for t in target.elts):
+                i = [k for k, t in enumerate(target.elts) if isinstance(t, ast.Starred)][0]
+                vals = list(value)
+                after = len(target.elts) - i - 1
+                if len(vals) < len(target.elts) - 1:
+                    raise EvalRefused("unpacking fails")
+                parts = vals[:i] + [vals[i:len(vals) - after]] + vals[len(vals) - after:]
+                for t, v in zip(target.elts, parts):
+                    self.assign(t.value if isinstance(t, ast.Starred) else t, v, env)
+                return
+            try:
+                vals = list(value)
+            except TypeError:
+                raise EvalRefused("unpacking a value that is not a sequence")
+            if len(vals) != len(target.elts):
+                raise EvalRefused("unpacking %d values into %d targets" % (len(vals), len(target.elts)))
+            for t, v in zip(target.elts, vals):
+                self.assign(t, v, env)
+        elif isinstance(target, ast.Attribute):
+            o = self.ev(target.value, env)
+            if not isinstance(o, Obj):
+                raise EvalRefused("attribute store on a value that is not a world instance")
+            m = self.member(o.qn, target.attr)
+            if m is not None and self._is_property(m):
+                raise EvalRefused("store through the property %s" % target.attr)
+            o.fields[target.attr] = value
+        else:
+            raise EvalRefused("assignment target %s" % ast.unparse(target))
+
+    def stmt(self, st, env):
+        self._tick()
+        if isinstance(st, ast.Return):
+            raise _Return(self.ev(st.value, env) if st.value is not None else None)
+        if isinstance(st, ast.Assign):
+            v = self.ev(st.value, env)
+            for t in st.targets:
+                self.assign(t, v, env)
+        elif isinstance(st, ast.AnnAssign):
+            if st.value is not None:
+                self.assign(st.target, self.ev(st.value, env), env)
+        elif isinstance(st, ast.If):
+            self.block(st.body if self.truth(self.ev(st.test, env)) else st.orelse, env)
+        elif isinstance(st, ast.Expr):
+            if isinstance(st.value, ast.Constant):
+                return
+            if isinstance(st.value, ast.Call) and is_log_call(st.value):
+                return
+            self.ev(st.value, env)
+        elif isinstance(st, ast.Pass):
+            return
+        elif isinstance(st, ast.For):
+            if st.orelse:
+                raise EvalRefused("for/else")
+            for v in self.iterate(self.ev(st.iter, env)):
+                self.assign(st.target, v, env)
+                self.block(st.body, env)
+        elif isinstance(st, ast.Try):
+            # nothing raises in the evaluator's world: whatever would raise at run time (missing attribute, index out
+            # of range, an explicit raise) is a refusal of the whole evaluation, so the handlers are never entered
+            self.block(st.body, env)
+            self.block(st.orelse, env)
+            self.block(st.finalbody, env)
+        elif isinstance(st, ast.Assert):
+            if not self.truth(self.ev(st.test, env)):
+                raise EvalRefused("an assertion of the identity protocol fails in the evaluator's world: %s" % ast.unparse(st.test))
+        else:
+            raise EvalRefused("statement %s is outside the evaluator's vocabulary" % type(st).__name__)
+
+    def truth(self, v):
+        if isinstance(v, Obj):
+            if self.member(v.qn, "__bool__") or self.member(v.qn, "__len__"):
+                raise EvalRefused("truth value of an instance with __bool__/__len__")
+            return True
+        if isinstance(v, Opaque):
+            raise EvalRefused("truth value of an unmodelled value")
+        if v is NotImplemented:
+            raise EvalRefused("truth value of NotImplemented")
+        return bool(v)
+
+    def iterate(self, v):
+        if isinstance(v, (tuple, list, str, bytes, range, zip, enumerate, frozenset, set, dict)) or hasattr(v, "__next__"):
+            return v
+        raise EvalRefused("iteration over a value that is not a modelled sequence")
+
+    def _is_property(self, m):
+        if m[0] == "method":
+            return any(chain(d) in ("property", "functools.cached_property", "cached_property") for d in m[1].node.decorator_list)
+        e = m[1]
+        return isinstance(e, ast.Call) and chain(e.func) == "property"
+
+    def getattr(self, o, name):
+        if isinstance(o, Obj):
+            m = self.member(o.qn, name)
+            if m is not None and self._is_property(m):
+                if m[0] == "method":
+                    self.deps.add(m[1].short)
+                    return self.call_function(m[1], [o], {})
+                e = m[1]
+                if not e.args or e.keywords and any(k.arg != "fget" for k in e.keywords):
+                    raise EvalRefused("property(...) form of %s" % name)
+                getter = self.ev(e.args[0], {"__module__": m[2].module})
+                return self.call_value(getter, [o], {})
+            if name in o.fields:
+                return o.fields[name]
+            if name == "__class__":
+                return _ClassRef(o.qn)
+            if m is None:
+                raise EvalRefused("%s has no attribute %s in the evaluator's world" % (o.qn, name))
+            if m[0] == "method":
+                if any(chain(d) == "staticmethod" for d in m[1].node.decorator_list):
+                    return m[1]
+                return _Bound(o, m[1])
+            return self.ev(m[1], {"__module__": m[2].module})
+        if isinstance(o, _ClassRef) and name == "__name__":
+            return o.qn.rsplit(".", 1)[-1]
+        raise EvalRefused("attribute %s of a value that is not a world instance" % name)
+
+    def call_value(self, f, args, kwargs):
+        if isinstance(f, _Bound):
+            self.deps.add(f.fi.short)
+            return self.call_function(f.fi, [f.obj] + list(args), kwargs)
+        if isinstance(f, ast.Lambda) or hasattr(f, "node"):
+            return self.call_function(f, args, kwargs)
+        if isinstance(f, _ClassRef):
+            if f.qn in _BUILTIN_TYPES:
+                return _BUILTIN_TYPES[f.qn](*args)
+            return self.new(f.qn, args, kwargs)
+        raise EvalRefused("call of a value the evaluator does not model")
+
+    def resolve_name(self, name, env):
+        module = env.get("__module__")
+        if module is not None:
+            q = self.prog.resolve_in_module(module, name)
+            if q in self.prog.classes:
+                return _ClassRef(q)
+            if q in self.prog.funcs:
+                return self.prog.funcs[q]
+            mod = q.rsplit(".", 1)
+            if len(mod) == 2:
+                m = self.prog.modules.get(mod[0]) if hasattr(self.prog.modules, "get") else None
+                if m is None:
+                    for mm in self.prog.modules.values():
+                        if getattr(mm, "name", None) == mod[0]:
+                            m = mm
+                            break
+                if m is not None:
+                    vals = [st.value for st in m.tree.body if isinstance(st, ast.Assign) and len(st.targets) == 1
+                            and isinstance(st.targets[0], ast.Name) and st.targets[0].id == mod[1]]
+                    if len(vals) == 1:
+                        return self.ev(vals[0], {"__module__": m})
+        raise EvalRefused("name %s is outside the evaluator's world" % name)
+
+    # -- expressions ------------------------------------------------------------------------------------------------
+    def ev(self, e, env):
+        self._tick()
+        if isinstance(e, ast.Constant):
+            return e.value
+        if isinstance(e, ast.Name):
+            if e.id in env and e.id != "__module__":
+                return env[e.id]
+            if e.id == "NotImplemented":
+                return NotImplemented
+            if e.id in _BUILTIN_TYPES:
+                return _ClassRef(e.id)
+            return self.resolve_name(e.id, env)
+        if isinstance(e, ast.Attribute):
+            c = chain(e)
+            base = c.split(".")[0] if c else None
+            if c and base not in env and base not in ("self",):
+                # a dotted name of the package (module.Class, module.CONST)
+                return self.resolve_name(c, env)
+            return self.getattr(self.ev(e.value, env), e.attr)
+        if isinstance(e, (ast.Tuple, ast.List)):
+            out = []
+            for x in e.elts:
+                if isinstance(x, ast.Starred):
+                    out.extend(self.iterate(self.ev(x.value, env)))
+                else:
+                    out.append(self.ev(x, env))
+            return tuple(out) if isinstance(e, ast.Tuple) else out
+        if isinstance(e, ast.Subscript):
+            v = self.ev(e.value, env)
+            if not isinstance(v, (tuple, list, str, bytes, dict)):
+                raise EvalRefused("subscript of a value that is not a modelled sequence: %s" % ast.unparse(e))
+            if isinstance(e.slice, ast.Slice):
+                parts = [None if p is None else self.ev(p, env) for p in (e.slice.lower, e.slice.upper, e.slice.step)]
+                if any(p is not None and not isinstance(p, int) for p in parts):
+                    raise EvalRefused("slice bounds")
+                return v[slice(*parts)]
+            i = self.ev(e.slice, env)
+            try:
+                return v[i]
+            except (IndexError, KeyError, TypeError):
+                raise EvalRefused("%s fails in the evaluator's world" % ast.unparse(e))
+        if isinstance(e, ast.Compare):
+            left = self.ev(e.left, env)
+            for op, r in zip(e.ops, e.comparators):
+                right = self.ev(r, env)
+                if not self.truth(self.compare(op, left, right)):
+                    return False
+                left = right
+            return True
+        if isinstance(e, ast.BoolOp):
+            v = None
+            for x in e.values:
+                v = self.ev(x, env)
+                t = self.truth(v)
+                if isinstance(e.op, ast.And) and not t or isinstance(e.op, ast.Or) and t:
+                    return v
+            return v
+        if isinstance(e, ast.UnaryOp):
+            v = self.ev(e.operand, env)
+            if isinstance(e.op, ast.Not):
+                return not self.truth(v)
+            if isinstance(v, int) and isinstance(e.op, ast.USub):
+                return -v
+            if isinstance(v, int) and isinstance(e.op, ast.Invert):
+                return ~v
+            raise EvalRefused("unary operator")
+        if isinstance(e, ast.BinOp):
+            a, b = self.ev(e.left, env), self.ev(e.right, env)
+            ok = (int, str, bytes, tuple, list)
+            if isinstance(a, bool) or isinstance(b, bool) or not isinstance(a, ok) or not isinstance(b, ok):
+                raise EvalRefused("arithmetic on unmodelled values")
+            try:
+                if isinstance(e.op, ast.Add):
+                    return a + b
+                if isinstance(e.op, ast.Sub):
+                    return a - b
+                if isinstance(e.op, ast.Mult) and isinstance(a, int) and isinstance(b, int):
+                    return a * b
+                if isinstance(e.op, ast.BitXor):
+                    return a ^ b
+                if isinstance(e.op, ast.BitAnd):
+                    return a & b
+                if isinstance(e.op, ast.BitOr):
+                    return a | b
+                if isinstance(e.op, ast.Mod) and isinstance(a, int) and isinstance(b, int) and b:
+                    return a % b
+            except TypeError:
+                pass
+            raise EvalRefused("binary operator in %s" % ast.unparse(e))
+        if isinstance(e, ast.IfExp):
+            return self.ev(e.body if self.truth(self.ev(e.test, env)) else e.orelse, env)
+        if isinstance(e, ast.Lambda):
+            if env.get("__module__") is None:
+                return e
+            return e
+        if isinstance(e, (ast.GeneratorExp, ast.ListComp, ast.SetComp)):
+            out = []
+            self.comp(e, 0, dict(env), out)
+            return set(out) if isinstance(e, ast.SetComp) else out
+        if isinstance(e, ast.Call):
+            return self.call(e, env)
+        if isinstance(e, ast.JoinedStr):
+            raise EvalRefused("formatted string in the identity protocol")
+        raise EvalRefused("expression %s is outside the evaluator's vocabulary" % ast.unparse(e))
+
+    def comp(self, e, i, env, out):
+        if i == len(e.generators):
+            out.append(self.ev(e.elt, env))
+            return
+        g = e.generators[i]
+        if g.is_async:
+            raise EvalRefused("async comprehension")
+        for v in self.iterate(self.ev(g.iter, env)):
+            self.assign(g.target, v, env)
+            if all(self.truth(self.ev(c, env)) for c in g.ifs):
+                self.comp(e, i + 1, env, out)
+
+    def compare(self, op, a, b):
+        if isinstance(op, ast.Is):
+            return self.same(a, b)
+        if isinstance(op, ast.IsNot):
+            return not self.same(a, b)
+        if isinstance(op, ast.Eq):
+            return self.equal(a, b)
+        if isinstance(op, ast.NotEq):
+            return not self.truth(self.equal(a, b))
+        if isinstance(op, (ast.In, ast.NotIn)):
+            r = any(x is a or self.truth(self.equal(x, a)) for x in self.iterate(b))
+            return r if isinstance(op, ast.In) else not r
+        plain = (int, str, bytes, tuple)
+        if isinstance(a, plain) and isinstance(b, plain) and type(a) is type(b):
+            try:
+                if isinstance(op, ast.Lt):
+                    return a < b
+                if isinstance(op, ast.LtE):
+                    return a <= b
+                if isinstance(op, ast.Gt):
+                    return a > b
+                if isinstance(op, ast.GtE):
+                    return a >= b
+            except TypeError:
+                pass
+        raise EvalRefused("ordering comparison of unmodelled values")
+
+    def same(self, a, b):
+        if a is None or b is None or isinstance(a, (Obj, bool)) or isinstance(b, (Obj, bool)) or a is NotImplemented or b is NotImplemented:
+            return a is b
+        if isinstance(a, _ClassRef) and isinstance(b, _ClassRef):
+            return a.qn == b.qn
+        if isinstance(a, Opaque) and isinstance(b, Opaque):
+            return a == b
+        raise EvalRefused("identity comparison of values whose identity the evaluator does not model")
+
+    def equal(self, a, b):
+        # concrete values, tuples of them, world instances (Obj.__eq__ -> interpreted __eq__) and opaques
+        return a == b
+
+    def call(self, e, env):
+        fn = chain(e.func)
+        args = []
+        for x in e.args:
+            if isinstance(x, ast.Starred):
+                args.extend(self.iterate(self.ev(x.value, env)))
+            else:
+                args.append(self.ev(x, env))
+        if any(k.arg is None for k in e.keywords):
+            raise EvalRefused("**kwargs call")
+        kwargs = {k.arg: self.ev(k.value, env) for k in e.keywords}
+        shadowed = fn in env if fn else False
+        if fn and not shadowed:
+            if fn == "hash" and len(args) == 1 and not kwargs:
+                return self.hash_value(args[0])
+            if fn == "isinstance" and len(args) == 2:
+                return self.isinstance(args[0], args[1])
+            if fn == "type" and len(args) == 1:
+                return self.type_of(args[0])
+            if fn == "getattr" and len(args) in (2, 3) and isinstance(args[1], str):
+                try:
+                    return self.getattr(args[0], args[1])
+                except EvalRefused:
+                    if len(args) == 3 and isinstance(args[0], Obj) and self.member(args[0].qn, args[1]) is None and args[1] not in args[0].fields:
+                        return args[2]
+                    raise
+            if fn == "id" and len(args) == 1:
+                if isinstance(args[0], Obj):
+                    return id(args[0])
+                raise EvalRefused("id() of an unmodelled value")
+            if fn in _PURE_BUILTINS and _PURE_BUILTINS[fn] is not None and not kwargs:
+                for a in args:
+                    if isinstance(a, (Opaque, _ClassRef, _Bound)):
+                        raise EvalRefused("%s() of an unmodelled value" % fn)
+                try:
+                    r = _PURE_BUILTINS[fn](*args)
+                except EvalRefused:
+                    raise
+                except Exception as ex:
+                    raise EvalRefused("%s fails in the evaluator's world: %s" % (ast.unparse(e), ex))
+                if fn in ("zip", "enumerate", "reversed", "range"):
+                    r = list(r)
+                return r
+            if fn in ("operator.eq", "operator.ne") and len(args) == 2:
+                r = self.equal(args[0], args[1])
+                return r if fn == "operator.eq" else not r
+        if isinstance(e.func, ast.Attribute) and isinstance(e.func.value, ast.Call) and chain(e.func.value.func) == "super":
+            raise EvalRefused("super() call in the identity protocol")
+        try:
+            f = self.ev(e.func, env)
+        except EvalRefused:
+            # a call the evaluator does not know (weakref.ref(x), socket functions, ...): an unmodelled value
+            # determined by the callee's name and the argument values
+            try:
+                return Opaque(("call", fn or ast.unparse(e.func), tuple(args), tuple(sorted(kwargs.items()))))
+            except TypeError:
+                raise EvalRefused("call %s with unhashable arguments" % ast.unparse(e)[:60])
+        if isinstance(f, Opaque):
+            return Opaque(("result", f.tag, tuple(args)))
+        return self.call_value(f, args, kwargs)
+
+    def hash_value(self, v):
+        if isinstance(v, (Obj, Opaque, int, str, bytes, type(None), _ClassRef)) or v is NotImplemented:
+            return hash(v)
+        if isinstance(v, (tuple, frozenset)):
+            for x in v:
+                self.hash_value(x)
+            return hash(v)
+        raise EvalRefused("hash() of an unhashable or unmodelled value")
+
+    def type_of(self, v):
+        if isinstance(v, Obj):
+            return _ClassRef(v.qn)
+        for n, t in _BUILTIN_TYPES.items():
+            if type(v) is t:
+                return _ClassRef(n)
+        if v is None:
+            return _ClassRef("NoneType")
+        raise EvalRefused("type() of an unmodelled value")
+
+    def isinstance(self, v, c):
+        if isinstance(c, tuple):
+            return any(self.isinstance(v, x) for x in c)
+        if not isinstance(c, _ClassRef):
+            raise EvalRefused("isinstance against a value that is not a class")
+        if c.qn in _BUILTIN_TYPES:
+            return isinstance(v, _BUILTIN_TYPES[c.qn]) and not isinstance(v, (Obj, Opaque))
+        if isinstance(v, Obj):
+            return c.qn in self.prog.mro(v.qn)
+        if isinstance(v, Opaque):
+            raise EvalRefused("isinstance of an unmodelled value")
+        return False
